@@ -98,6 +98,9 @@ func traceTo(w *ndWriter, filter func(e vhook.Event) bool) {
 		}
 		m := make(map[string]any, len(e.KV)+2)
 		for k, v := range e.KV {
+			if v == nil {
+				v = "" // a nil error / nil pointer: TLC's Json module cannot read null
+			}
 			m[k] = v
 		}
 		m["ev"] = e.Ev
